@@ -99,7 +99,8 @@ class Contract:
     def __init__(self, key, params, requires=(), ensures=None, raises=None, modifies=(), loops=None,
                  bind=None, returns=None, cases=None, inherits=None, trusted=False, expost=None,
                  decreases=None, pure=False, note="", exc_modifies=None, ghost=None, allow_exc=(), props=None,
-                 theories=()):
+                 theories=(), local_types=None):
+        self.local_types = {k: parse_type(v) for k, v in (local_types or {}).items()}
         self.props = list(props) if props is not None else list(DEFAULT_PROPS)
         self.theories = tuple(theories)
         self.key = key
@@ -115,7 +116,7 @@ class Contract:
         self.cases = cases  # optional list of {param: type} overrides, verified separately
         self.inherits = inherits
         self.trusted = trusted  # assumed contract (no body verified): listed in evidence
-        self.expost = _labelled(expost or {}, "expost")
+        self.expost = expost if isinstance(expost, dict) else _labelled(expost or {}, "expost")
         self.decreases = decreases
         self.pure = pure
         self.note = note
